@@ -198,13 +198,19 @@ def work(cfg):
       P.prove(f'{tag}|rank-1 coincides with diagonal AdaGrad/RMSProp', z3.And(eq), inv + accS)
   out_res = []
   viol = []
+  memo = {}
   for r in P.results:
-    if r['status'] == 'sat' and r.get('kind', 'core') == 'core':
-      v = confirm(cfg, r, tr, leaves, nu, S)
+    if r['status'] in ('sat', 'unknown') and r.get('kind', 'core') == 'core':
+      if r['status'] == 'unknown':       # no model: one generic replay per task
+        if 'unk' not in memo:
+          memo['unk'] = confirm(cfg, r, tr, leaves, nu, S)
+        v = memo['unk']
+      else:
+        v = confirm(cfg, r, tr, leaves, nu, S)
       if v is not None:
         r['status'] = 'violation'
         viol.append(v)
-      else:
+      elif r['status'] == 'sat':
         r['status'] = 'spurious'
         r['note'] = 'candidate counterexample did not reproduce on the real code'
     out_res.append(dict(r))
